@@ -28,4 +28,8 @@ TEXTS = {
  "C16": T(COMMON + "Judge at every quiescent state: hits+misses = lookups, added-deleted = keys held, weight added-removed = used, rejected = admission refusals; hit ratio from stats_summary() = hits/lookups.", TECH),
  "C17": T(COMMON + "Judge: no API call with valid arguments panics and no background thread dies, over boundary-biased arguments and configurations; every run ends with a liveness probe.", TECH),
 }
+TEXTS["C12"] = T("Ack.tla models done() and poll() at the grain of the individual accesses (status cell, flag, waker slot and its lock). TLC checks all interleavings of done() with 1-2 polling tasks x 2-3 polls (safety: never Ready(Pending), real and stable status, wake of the registered waker, no Pending after completion; liveness <>AllDone under weak fairness). "
+    "TLC then exports EVERY schedule of small instances (and a seeded sample of a larger one); each is replayed step by step on the real CommandAcknowledgement with schedule points between its accesses, and TLC validates every recorded step against Ack.tla and evaluates the same judges.",
+    "TLA+ spec (Ack.tla) model-checked with TLC; all TLC-generated schedules replayed on the real acknowledgement; TLC trace validation",
+    note="Trusted: TLC; additive points between the accesses; waker slot inferred (not observable). The effect-visible clause is covered by C11/C04/C07 judges on the system traces (status published after the command's last effect).")
 NOT_APPLICABLE = {}
